@@ -104,7 +104,7 @@ fn line_ending_in_strings(cx: &mut Ctx) {
         if name == "next_char" || name == "new" {
             continue;
         }
-        let t = sm::tsc(&f.block);
+        let t = sm::tsx(&f.block);
         if t.contains("self.window.slide()") || t.contains("self.window.source") || t.contains("self.window.window") {
             bad.push(name);
         }
